@@ -6,6 +6,10 @@ import (
 
 	"cosmossdk.io/math"
 
+	bridgekeeper "github.com/tellor-io/layer/x/bridge/keeper"
+	bridgetypes "github.com/tellor-io/layer/x/bridge/types"
+
+	sdk "github.com/cosmos/cosmos-sdk/types"
 	authtypes "github.com/cosmos/cosmos-sdk/x/auth/types"
 	bankkeeper "github.com/cosmos/cosmos-sdk/x/bank/keeper"
 )
@@ -223,6 +227,9 @@ func (o *OracleC03) AfterBlock(c *Chain, b *BlockCtx) []*Violation {
 			out = append(out, o.v(b.H, "mint", "inflation-bound", "cumulative minted %s exceeds rate x elapsed = %s", o.totalMinted, bound))
 		}
 	}
+	if len(out) == 0 {
+		out = append(out, o.claimSupplyProbe(c, b, v)...)
+	}
 	if len(out) == 0 && len(o.samples) < 2 && (pred.Sign() > 0 || len(perTx) > 0) {
 		o.sample(fmt.Sprintf("h=%d dt=%dms mint=%s tx-expectations=%d disputeBurn=%s supply=%s", b.H, b.Time.Sub(b.PrevTime).Milliseconds(), pred, len(perTx), disputeBurn, supply))
 	}
@@ -230,6 +237,71 @@ func (o *OracleC03) AfterBlock(c *Chain, b *BlockCtx) []*Violation {
 }
 
 func (o *OracleC03) End(c *Chain) []*Violation { return nil }
+
+// claimSupplyProbe: on a cache context (nothing written back) each known deposit is claimed through the real
+// message server — once, then again, and twice inside one message. However the chain answers, the supply may
+// grow by the reported amount / 10^12 at most once per deposit.
+func (o *OracleC03) claimSupplyProbe(c *Chain, b *BlockCtx, v *View) []*Violation {
+	app := b.Ref.App
+	qids := map[string]uint64{}
+	for id := uint64(0); id <= 6; id++ {
+		qids[string(QueryID(BridgeQueryData(true, id)))] = id
+	}
+	n := map[uint64]int{}
+	for _, a := range v.Aggregates() {
+		if id, ok := qids[string(a.QueryID)]; ok {
+			n[id]++
+		}
+	}
+	if len(n) == 0 {
+		return nil
+	}
+	ms := bridgekeeper.NewMsgServerImpl(app.BridgeKeeper)
+	creator := c.Accounts.Addr(0).String()
+	supply := func(ctx sdk.Context) *big.Int { return app.BankKeeper.GetSupply(ctx, Denom).Amount.BigInt() }
+	for id := uint64(0); id <= 6; id++ {
+		for k := 0; k < n[id] && k < 4; k++ {
+			amt, _, ok, _ := depositAggregate(v, id, uint64(k))
+			if !ok {
+				continue
+			}
+			want := floorDiv(amt, 1_000_000_000_000)
+			for _, shape := range [][]uint64{{id}, {id, id}, {id, id, id}} {
+				cctx, _ := v.ctx.CacheContext()
+				s0 := supply(cctx)
+				idx := make([]uint64, len(shape))
+				for i := range idx {
+					idx[i] = uint64(k)
+				}
+				accepted := 0
+				for rep := 0; rep < 2; rep++ {
+					if err := probeMsg(cctx, func(x sdk.Context) error {
+						_, e := ms.ClaimDeposits(x, &bridgetypes.MsgClaimDepositsRequest{Creator: creator, DepositIds: shape, Indices: idx})
+						return e
+					}); err == nil {
+						accepted++
+					}
+				}
+				o.count("probe_claim_shapes")
+				got := new(big.Int).Sub(supply(cctx), s0)
+				if accepted == 0 {
+					if got.Sign() != 0 {
+						return []*Violation{o.v(b.H, "claim-probe", "supply-moved-by-refused-claim", "refused claims of deposit %d changed the supply by %s", id, got)}
+					}
+					continue
+				}
+				o.count("probe_claims_accepted")
+				if o.claimedIDs[id] {
+					return []*Violation{o.v(b.H, "claim-probe", "deposit-minted-again", "deposit %d was already turned into tokens, yet a further claim is accepted on the state after block %d and mints %s", id, b.H, got)}
+				}
+				if got.Cmp(want) != 0 {
+					return []*Violation{o.v(b.H, "claim-probe", "deposit-minted-more-than-once", "claiming deposit %d (index %d) %d times per message, message sent twice: supply grows by %s, the reported amount / 10^12 is %s", id, k, len(shape), got, want)}
+				}
+			}
+		}
+	}
+	return nil
+}
 
 func (c *Chain) txHasKind(b *BlockCtx, i int, kind string) bool {
 	in := c.IntentOfTx(b, i)
